@@ -684,6 +684,7 @@ type verifRpcLog struct {
 	id    string
 	lines []string
 	gates sync.Map // call idx -> chan struct{}, closed by the handler when it returns (response on its way)
+	sink  *os.File // when set, every line is also written at once (survives a crash of the code under test)
 }
 
 // verifRpcRaceCtx pins the interleaving "the context is cancelled while the response is being delivered", which in
@@ -727,6 +728,9 @@ func (l *verifRpcLog) add(format string, a ...any) {
 	s := fmt.Sprintf(format, a...)
 	l.mu.Lock()
 	l.lines = append(l.lines, l.id+" "+s)
+	if l.sink != nil {
+		_, _ = l.sink.WriteString(l.id + " " + s + "\n")
+	}
 	l.mu.Unlock()
 }
 
@@ -1029,25 +1033,27 @@ func verifRpcPlanCalls(n int, maxBody int, seed int64, forceTimeout bool, racePc
 
 func TestVerifRpcMux(t *testing.T) {
 	dir, _ := os.Getwd()
-	var out []string
+	sink, err := os.OpenFile(os.Getenv("VERIF_OUT"), os.O_CREATE|os.O_TRUNC|os.O_WRONLY, 0o644)
+	if err != nil {
+		t.Fatalf("VERIF_OUT: %v", err)
+	}
+	defer sink.Close()
 	hung := false
 	for _, line := range verifRpcReadOps(t) {
 		kv := verifRpcKV(strings.Fields(line))
-		if hung { // goroutines of a hung scenario are still around; do not pile up 25 s watchdogs
-			out = append(out, kv["id"]+" END skipped-after-hang")
+		if hung { // goroutines of a hung scenario are still around; do not pile up watchdogs
+			_, _ = sink.WriteString(kv["id"] + " END skipped-after-hang\n")
 			continue
 		}
-		lines := verifRpcMuxScenario(dir, kv)
-		out = append(out, lines...)
+		lines := verifRpcMuxScenario(dir, kv, sink)
 		if len(lines) > 0 && strings.Contains(lines[len(lines)-1], " END hang") {
 			hung = true
 		}
 	}
-	verifRpcWriteOut(t, out)
 }
 
-func verifRpcMuxScenario(dir string, kv map[string]string) []string {
-	l := &verifRpcLog{id: kv["id"]}
+func verifRpcMuxScenario(dir string, kv map[string]string, sink *os.File) []string {
+	l := &verifRpcLog{id: kv["id"], sink: sink}
 	enc := kv["enc"] == "1"
 	ncalls, threads := verifRpcAtoi(kv["calls"]), verifRpcAtoi(kv["threads"])
 	seed, _ := strconv.ParseInt(kv["seed"], 10, 64)
